@@ -220,6 +220,7 @@ Proof. vm_compute. reflexivity. Qed.
    the transition off a request, its reply and - for a deletion - the
    requester's effective mode and lastID before it.
    [reach sm s0 h] is the state after history h from the new topic s0.       *)
+From Tinode Require Sys.TopicSoftPrivC04.
 From Tinode Require Import Pure.Acs Sys.Topic Sys.TopicTac Sys.TopicInst Sys.TopicHist Sys.TopicHistProofs
   Sys.TopicHistInst Sys.TopicHistThm.
 
@@ -350,6 +351,24 @@ Theorem c04_delete_rows : forall s c sid u req hard0 h, u <> 0%N ->
   else msgs (h_st h) = msgs s.
 Proof. exact del_accepted_rows. Qed.
 Print Assumptions c04_delete_rows.
+
+(* "for the requester only when soft": a request that is not hard-effective (asked soft, or asked
+   hard without D and silently made soft), whatever its outcome and under ANY faults, leaves the
+   cached record - in particular the deletion mark - of every OTHER user untouched and answers the
+   requesting session only; the hard-effective request, by contrast, marks every cached user *)
+Theorem c04_soft_private : forall f s c n sid u req hard0 v,
+  hard0 && is_deleter (user_mode c u) = false -> v <> u ->
+  let h := del_msg del_ranges_i f s c n sid u req hard0 in
+  alookup v (c_users (h_ca h)) = alookup v (c_users c) /\ forall fr, In fr (h_out h) -> fst fr = sid.
+Proof. exact (Sys.TopicSoftPrivC04.del_msg_soft_private del_ranges_i). Qed.
+Print Assumptions c04_soft_private.
+Theorem c04_hard_marks_everyone : forall s c sid u req ranges v p,
+  is_deleter (user_mode c u) = true -> del_ranges_i (c_lastid c) req = Some ranges ->
+  alookup v (c_users c) = Some p ->
+  exists p', alookup v (c_users (h_ca (del_msg del_ranges_i NoFault s c 0 sid u req true))) = Some p' /\
+             p_delid p' = (c_delid c + 1)%Z.
+Proof. exact (Sys.TopicSoftPrivC04.del_msg_hard_marks_everyone del_ranges_i). Qed.
+Print Assumptions c04_hard_marks_everyone.
 
 (* delID of the loaded topic is the stored counter: an accepted request gets the NEXT number *)
 Theorem c04_delid_next : forall sm s0 h c, hist_init s0 -> hist_ok sm h -> ca (reach sm s0 h) = Some c ->
